@@ -170,6 +170,7 @@ fn slice_main(args: &Args) -> i32 {
         lim.rlim_cur = if lim.rlim_max == libc::RLIM_INFINITY { want } else { want.min(lim.rlim_max) };
         libc::setrlimit(libc::RLIMIT_AS, &lim);
     }
+    core::start_heartbeat();
     let out = std::io::stdout();
     let mut r = WorkerResult::default();
     let mut since = Instant::now();
